@@ -4,23 +4,23 @@ import json
 CLAIMED = {
  "C14": dict(level="fault_enumeration", design="DESIGN.md §4.6",
    technique="deterministic fault injection: structure-aware at-rest faults (retarget / boundary / nest / hostile xref fields) planted through the harness writer, walked under simulated resource limits (stack size, allocator caps and meters, work budget) in supervised worker processes",
-   text="Typed templates covering the followed reference fields and numeric parameters named in the property; the complete single-fault space (every reference field x every object incl. itself, object 0 and an undefined number; every numeric field x six boundary values; nesting; stream /Length references; hostile trailer and xref-stream fields incl. /Prev self-loops) is enumerated for all 10 templates in four configurations (both tiers), plus seeded 2-3-fault cases (100 000 quick / 2 000 000 thorough); each case is walked through every read entry point with panics caught, stack overflow / abort / allocation refusal / timeout observed as worker death and confirmed twice.",
+   text="Typed templates covering the followed reference fields and numeric parameters named in the property; the complete single-fault space (every reference field x every object incl. itself, object 0 and an undefined number; every numeric field x six boundary values; nesting; stream /Length references; hostile trailer and xref-stream fields incl. /Prev self-loops) is enumerated for all 17 templates (incl. DAG trees, a 3000-link parent chain, RC4-encrypted documents that open) in four configurations with and without bytes before the header (both tiers); stream data replaced by 49 hostile payloads; hostile stream-dictionary entries, plus seeded 2-3-fault cases (100 000 quick / 2 000 000 thorough); each case is walked through every read entry point with panics caught, stack overflow / abort / allocation refusal / timeout observed as worker death and confirmed twice.",
    note="Planting the structure is generation (stated in DESIGN.md); the simulation part is the resource side. Templates are small; resource constants are loose bounds against unboundedness."),
  "C01": dict(level="fault_enumeration", design="DESIGN.md §4.5",
    technique="deterministic fault injection on the storage seam (at-rest corruption, EOF anywhere, sector faults, splices) + metered allocator / stack / work budgets, each case walked through every read entry point in a supervised worker process",
-   text="Valid stored documents (corpus incl. encrypted files, generated documents) suffer seeded sequences of at-rest storage faults before open; the walker then makes every read call of the property's list, each under catch_unwind, under allocation / log-event meters, on a 2 MiB or 8 MiB stack, in {strict, tolerant} x {cached, uncached}; a worker death (stack overflow, abort, allocation refusal, timeout) is attributed to its case, confirmed twice and named by the library call being made. Complete enumeration of truncation points (and, thorough, of single-bit flips) on the small documents plus seeded multi-fault cases.",
+   text="Valid stored documents (corpus incl. encrypted files opened with their user, owner, the empty or a wrong password; generated documents incl. RC4-encrypted ones) suffer seeded sequences of at-rest storage faults before open (bit / byte / sector / splice / digit-run / token-aligned overwrites / a string rewritten with another length with the cross-reference table shifted); the walker then makes every read call of the property's list, each under catch_unwind, under allocation / log-event meters, on a 2 MiB or 8 MiB stack, in {strict, tolerant} x {cached, uncached}; a worker death (stack overflow, abort, allocation refusal, timeout) is attributed to its case, confirmed twice and named by the library call being made. Complete enumeration of truncation points (and, thorough, of single-bit flips) on the small documents and of string token x 19 lengths x 4 passwords on the encrypted corpus files, plus seeded multi-fault cases.",
    note="Covers 'valid file + storage faults', not arbitrary byte strings nor grammar-generated texts; resource constants are deliberately loose bounds against unboundedness."),
  "C02": dict(level="exploration", design="DESIGN.md §4.4",
    technique="deterministic simulation of successive writers appending revisions to an append-only medium, crash points at every revision boundary; log-replay ordering check against a 'newest mention wins' map model",
-   text="Seeded update histories (1-8 revisions, 3-12 object numbers; classic tables and xref streams with arbitrary subsection / Index splits, W widths incl. width 0, filters; objects direct, compressed in one or two object streams, freed with generation+1, reused; Size growth; moving Root) written by the harness's independent writer and cross-checked by its strict reader; the library opens the medium after every append in strict+uncached and tolerant+cached mode and every object number below /Size plus the trailer is compared with the model. Sampling, not proof.",
+   text="Seeded update histories (1-8 revisions, 3-12 object numbers; classic tables and xref streams with arbitrary subsection / Index splits, W widths incl. width 0, filters; objects direct, compressed in one or two object streams, freed with generation+1, reused; Size growth; moving Root; trailers with and without /Info; one history in five RC4-encrypted with the harness's own security handler) written by the harness's independent writer and cross-checked by its strict reader; the library opens the medium after every append in strict+uncached and tolerant+cached mode and every object number below /Size plus the trailer is compared with the model. Sampling, not proof.",
    note="Trusted: the harness writer + strict reader. Torn final appends, hybrid files and generation-rule violations are outside the statement."),
  "C09": dict(level="exploration", design="DESIGN.md §4.3",
    technique="deterministic simulation of a store (put/read/sync/restart) with injected save failures and refusing sinks; step-by-step refinement against a map model, durability and prefix checks after every successful save",
-   text="Seeded operation histories over {create, update of base objects (direct and compressed) and of earlier references, promise, fulfil, read, save, failing save (unfulfilled promise, stream still in the source file, /dev/full, missing directory), dirty restart} on corpus and generated base files (classic/stream xref, object streams, junk before the header, caches on/off), always closed by replace-offender + fulfil + save + reload. After every step: read-your-writes through raw and typed paths; after every successful save: previous bytes are a prefix, every written reference (passed and handed) resolves to the model's value in a fresh reload, sampled untouched objects and stream data unchanged. Fault-free and fault batches counted separately. Sampling, not proof.",
-   note="Values restricted to the serializer's round-trip-safe subset (validated per value); update targets exclude objects the document needs to open; file system is real apart from the refusing sinks."),
+   text="Seeded operation histories over {create, update of base objects (direct and compressed), of earlier references and of numbers the document does not define, typed page writes, typed stream copies that keep the source's filters, promise, fulfil, read, save, failing save (unfulfilled promise, stream still in the source file, /dev/full, missing directory), dirty restart} on corpus and generated base files (classic/stream xref, object streams, junk before the header, multi-revision histories with freed and reused numbers, a document that was never saved, caches on/off), always closed by replace-offender + fulfil + save + reload. After every step: read-your-writes through raw and typed paths; after every successful save: previous bytes are a prefix, every written reference (passed and handed) resolves to the model's value in a fresh reload, sampled untouched objects and stream data unchanged. Fault-free and fault batches counted separately. Sampling, not proof.",
+   note="Update targets exclude objects the document needs to open; integers and reals of equal numeric value are identified when compared; file system is real apart from the refusing sinks."),
  "C12": dict(level="exploration", design="DESIGN.md §4.2",
    technique="deterministic simulation of call histories with cache-eviction fault injection; refinement check of the cached document against the uncached single-call reference model",
-   text="Histories of read calls (typed loads incl. wrong types, raw resolves, stream data, raw and decoded image data, page look-ups, lazy loads; resolver reuse/renewal) on a document with real SyncCache caches in three cache modes, with eviction faults between and inside calls; each call's answer must equal the answer of that call alone on a fresh uncached document. Complete enumeration of ordered pairs (quick) / triples (thorough) of call kinds per sampled object, plus seeded random histories; fault-free and fault batches counted separately.",
+   text="Histories of read calls (typed loads incl. wrong types, raw resolves, stream data, raw and decoded image data, page look-ups, lazy loads; resolver reuse/renewal; set_options switches) on a document (generated families incl. cyclic, deep and dangling-reference documents, corpus) with real SyncCache caches in three cache modes, with eviction faults between and inside calls; each call's answer must equal the answer of that call alone on a fresh uncached document. Complete enumeration of ordered pairs (quick) / triples (thorough) of call kinds per sampled object, plus seeded random histories; fault-free and fault batches counted separately.",
    note="Reference model is the library's own uncached behaviour; digests via canonicalised Debug renderings; objects of large corpus files are sampled."),
  "C13": dict(level="exploration", design="DESIGN.md §4.1",
    technique="deterministic simulation: seeded baton scheduler over real OS threads at the Cache/Log seams + eviction fault injection; linearizability-style check of every answer against the sequential (alone) answer; second engine: the same scenarios under Miri's seeded scheduler (no stubs)",
